@@ -27,6 +27,9 @@ fn pat(key: &str, tag: u32, i: usize) -> u8 {
 
 /// `key|tag|plen|payload`: never empty, self-describing, unique per
 /// (key, tag).
+/// `plen` of a set/put whose source path names no file.
+pub const MISSING_SOURCE: usize = usize::MAX;
+
 pub fn make_value(key: &str, tag: u32, plen: usize) -> Vec<u8> {
     let mut v = format!("{}|{}|{}|", key, tag, plen).into_bytes();
     let start = v.len();
@@ -553,6 +556,12 @@ pub struct OpEnv {
     pub scratch: String,
     /// chunk size used when the application writes values
     pub chunk: usize,
+    /// mode the application gives its temp-file objects before handing them
+    /// to set_temp_file / put_temp_file (None: tempfile's default 0600)
+    pub temp_mode: Option<u32>,
+    /// the source of the next `set` is a hard link to this (cached) file
+    /// instead of a freshly written one
+    pub link_from: Option<String>,
 }
 
 /// Runs `f` with the thread marked as being inside a library call.
@@ -577,6 +586,11 @@ fn to_errn(e: std::io::Error) -> Errn {
 
 fn app_source(env: &OpEnv, op_id: u32, key: &str, tag: u32, plen: usize) -> std::io::Result<PathBuf> {
     let p = PathBuf::from(format!("{}/src-{}-{}", env.scratch, env.proc, op_id));
+    if let Some(from) = &env.link_from {
+        // re-import: the application hard-linked a cached file out earlier
+        kismet_vfs::std::fs::hard_link(from, &p)?;
+        return Ok(p);
+    }
     let mut f = File::create(&p)?;
     write_chunked(&mut f, &make_value(key, tag, plen), env.chunk)?;
     Ok(p)
@@ -599,6 +613,21 @@ pub fn exec_op(env: &OpEnv, op_id: u32, hidx: usize, h: &Handle, kidx: usize, ke
 
     let body = || -> std::io::Result<Out> {
         let name = key.name.as_str();
+        // unusual input: the path handed to set/put names no file (the caller's
+        // staging file is gone).  The call must fail, promptly.
+        if let Op::Set { plen, .. } | Op::Put { plen, .. } = op {
+            if *plen == MISSING_SOURCE {
+                let src = PathBuf::from(format!("{}/missing-{}-{}", env.scratch, env.proc, op_id));
+                let set = matches!(op, Op::Set { .. });
+                return match h {
+                    Handle::Plain(c) => lib(|| if set { c.set(name, &src) } else { c.put(name, &src) }),
+                    Handle::Sharded(c) => lib(|| if set { c.set(key.key(), &src) } else { c.put(key.key(), &src) }),
+                    Handle::Stack(c) => lib(|| if set { c.set(key.key(), &src) } else { c.put(key.key(), &src) }),
+                    Handle::ReadOnly(_) => Ok(()),
+                }
+                .map(|_| Out::Unit);
+            }
+        }
         match (h, op) {
             // ---------------------------------------------------- lookups
             (Handle::Plain(c), Op::Get) | (Handle::Plain(c), Op::GetNoRead) => match lib(|| c.get(name))? {
@@ -622,6 +651,18 @@ pub fn exec_op(env: &OpEnv, op_id: u32, hidx: usize, h: &Handle, kidx: usize, ke
             (Handle::Stack(c), Op::Touch) => lib(|| c.touch(key.key())).map(Out::Bool),
             (Handle::ReadOnly(c), Op::Touch) => lib(|| c.touch(key.key())).map(Out::Bool),
             // ---------------------------------------------------- raw writes
+            (Handle::Plain(c), Op::Set { tag, plen }) if env.link_from.is_some() => {
+                let src = app_source(env, op_id, name, *tag, *plen)?;
+                lib(|| c.set(name, &src))?;
+                *source_left.lock().unwrap() = exists(&src);
+                Ok(Out::Unit)
+            }
+            (Handle::Sharded(c), Op::Set { tag, plen }) if env.link_from.is_some() => {
+                let src = app_source(env, op_id, name, *tag, *plen)?;
+                lib(|| c.set(key.key(), &src))?;
+                *source_left.lock().unwrap() = exists(&src);
+                Ok(Out::Unit)
+            }
             (Handle::Plain(c), Op::Set { tag, plen }) | (Handle::Plain(c), Op::Put { tag, plen }) | (Handle::Plain(c), Op::SetTemp { tag, plen }) | (Handle::Plain(c), Op::PutTemp { tag, plen }) => {
                 let dir = lib(|| c.temp_dir().map(|d| d.into_owned()))?;
                 let mut tmp = NamedTempFile::new_in(dir)?;
@@ -661,6 +702,10 @@ pub fn exec_op(env: &OpEnv, op_id: u32, hidx: usize, h: &Handle, kidx: usize, ke
             (Handle::Stack(c), Op::SetTemp { tag, plen }) | (Handle::Stack(c), Op::PutTemp { tag, plen }) => {
                 let mut tmp = NamedTempFile::new_in(&env.scratch)?;
                 write_chunked(tmp.as_file_mut(), &make_value(name, *tag, *plen), env.chunk)?;
+                if let Some(m) = env.temp_mode {
+                    use std::os::unix::fs::PermissionsExt;
+                    tmp.as_file().set_permissions(kismet_vfs::std::fs::Permissions::from_mode(m))?;
+                }
                 let tmp_path = tmp.path().to_path_buf();
                 let _guard = SourceProbe { left: &source_left, path: tmp_path, sim: &env.sim };
                 if matches!(op, Op::SetTemp { .. }) {
@@ -1171,6 +1216,16 @@ fn track_episode(dirs: &[DirSpec], st: &mut InvState, fs: &SimFs, r: &Rec) {
                     }
                 }
                 _ => {}
+            }
+            // a pass only ever addresses the entries of the directory it
+            // listed (and, separately, the contents of its .kismet_temp)
+            if matches!(r.kind, K::Utimens | K::Unlink) && r.lib {
+                let prefix = format!("{}/", dir);
+                if let Some(rest) = r.raw.strip_prefix(&prefix) {
+                    if rest.contains('/') && !rest.starts_with(".kismet_temp/") {
+                        st.violations.push(("maintenance-path", format!("maintenance of {} addressed {}, which is not an entry of that directory: {}", dir, r.raw, r.short())));
+                    }
+                }
             }
             st.open_ep.remove(&who);
         }
